@@ -168,6 +168,7 @@ type parked struct {
 
 type batchExec struct {
 	sc        *BatchSc
+	cnMissing bool // the implementation has no exported embedded CustomNode to install callbacks through
 	mu        sync.Mutex
 	events    []BEv
 	parked    []*parked
@@ -565,7 +566,13 @@ func (x *batchExec) build() flyt.Node {
 		default:
 			cnOpts = append(cnOpts, flyt.WithPrepFuncAny(x.prepCb))
 		}
-		b.CustomNode = flyt.NewNode(cnOpts...).CustomNode
+		src, ok1 := embedded(flyt.NewNode(cnOpts...), "CustomNode")
+		dst, ok2 := embedded(b, "CustomNode")
+		if ok1 && ok2 && src.Type() == dst.Type() {
+			dst.Set(src)
+		} else {
+			x.cnMissing = true // no such route in this implementation: the case cannot be set up
+		}
 	}
 	if !bit(0) {
 		b.WithMaxRetries(sc.budget())
@@ -614,7 +621,11 @@ func (x *batchExec) build() flyt.Node {
 	}
 	x.builder = b
 	if bit(4) {
-		return b.BatchNode // *BatchNode rather than the builder
+		if f, ok := embedded(b, "BatchNode"); ok { // *BatchNode rather than the builder
+			if n, isNode := f.Interface().(flyt.Node); isNode && !f.IsNil() {
+				return n
+			}
+		}
 	}
 	return b
 }
@@ -624,14 +635,15 @@ func (x *batchExec) build() flyt.Node {
 // configuration must be read at run time, not cached from an earlier run.
 func (x *batchExec) reconfigure(next *BatchSc) {
 	b := x.builder
-	if next.CfgBits&1 != 0 {
-		flyt.WithMaxRetries(next.budget())(b.BaseNode)
+	base := embeddedBase(b)
+	if next.CfgBits&1 != 0 && base != nil {
+		flyt.WithMaxRetries(next.budget())(base)
 	} else {
 		b.WithMaxRetries(next.budget())
 	}
 	b.WithWait(next.wait())
-	if next.CfgBits&2 != 0 {
-		flyt.WithBatchConcurrency(next.C)(b.BaseNode)
+	if next.CfgBits&2 != 0 && base != nil {
+		flyt.WithBatchConcurrency(next.C)(base)
 	} else {
 		b.WithBatchConcurrency(next.C)
 	}
@@ -784,6 +796,9 @@ func (x *batchExec) run() batchRun {
 }
 
 func (x *batchExec) rejected(br batchRun) bool {
+	if x.cnMissing {
+		return true
+	}
 	return prepFormRejected(x.sc, br.Events, br.Err, br.Panic, br.CtxErr)
 }
 
